@@ -25,6 +25,9 @@ func nitrogenProjects(c *core.Ctx, n, years int, salt int64, legumes bool, deepT
 		if legumes && i%2 == 0 {
 			o.Crops = []string{"SOY", "LUP", "SOY", "SM"}
 		}
+		if legumes && i%4 == 0 && o.Years < 3 {
+			o.Years = 3 // room for a legume cut green and a winter cereal after it
+		}
 		if i%7 == 5 {
 			o.NoCrops = true
 		}
@@ -36,6 +39,31 @@ func nitrogenProjects(c *core.Ctx, n, years int, salt int64, legumes bool, deepT
 			o.WetTopsoil, o.MinLayers = true, 3
 		}
 		p := gen.Random(r, fmt.Sprintf("n%d_%d", c.Seed, i), o)
+		greenCut := false
+		if legumes && i%4 == 0 && !o.NoCrops {
+			// a legume cut green (harvested while it is still fixing) followed by a non-legume: what the legume fixed on
+			// its last day must not be credited to the crop after it
+			b, e := p.Rotation[0].Harv, p.Cfg.End
+			y, _, _ := gen.YMD(b)
+			y++ // the first spring after the start
+			sow := gen.DayNum(y, 4, 8) + r.Intn(25)
+			cut := sow + 68 + r.Intn(25)
+			ws := gen.DayNum(y, 9, 12) + r.Intn(25)
+			wh := gen.DayNum(y+1, 7, 18) + r.Intn(25)
+			if sow > b+5 && wh <= e-3 {
+				p.Rotation = append(p.Rotation[:1],
+					gen.RotEntry{Crop: []string{"SOY", "LUP"}[r.Intn(2)], Sow: sow, Harv: cut, RexPct: 50},
+					gen.RotEntry{Crop: []string{"WW", "WG"}[r.Intn(2)], Sow: ws, Harv: wh, RexPct: 50})
+				var till []gen.TillEv
+				for _, t := range p.Till {
+					if !(p.InCrop(t.Date-1) || p.InCrop(t.Date) || p.InCrop(t.Date+1) || p.InCrop(t.Date+2) || p.InCrop(t.Date+3)) {
+						till = append(till, t)
+					}
+				}
+				p.Till = till
+				greenCut = true
+			}
+		}
 		if deepTill && len(p.Till) > 0 && i%3 == 0 {
 			p.Till[0].Cm = []int{45, 50, 60, 100, 200}[i%5]
 			if nl := p.Soil.Horizons[len(p.Soil.Horizons)-1].LowerDm; p.Till[0].Cm > nl*10-6 {
@@ -45,7 +73,7 @@ func nitrogenProjects(c *core.Ctx, n, years int, salt int64, legumes bool, deepT
 				}
 			}
 		}
-		p.Arms = []string{fmt.Sprintf("heavyRain=%v drain=%v shallowGW=%v legumes=%v peat=%v bare=%v wetTopsoil=%v", o.HeavyRain, o.Drain, o.ShallowGW, legumes && i%2 == 0, o.Peat, o.NoCrops, o.WetTopsoil)}
+		p.Arms = []string{fmt.Sprintf("heavyRain=%v drain=%v shallowGW=%v legumes=%v peat=%v bare=%v wetTopsoil=%v greenCut=%v", o.HeavyRain, o.Drain, o.ShallowGW, legumes && i%2 == 0, o.Peat, o.NoCrops, o.WetTopsoil, greenCut)}
 		ps = append(ps, p)
 	}
 	return ps
